@@ -43,7 +43,22 @@ structure St where
   mmMode     : String := "majority"        -- the replication-mode manager's own copy of the config
   mmKey      : String := ""
   registered : List String := []           -- registered scheduler types (extracted from the source)
+  defaults   : List String := []           -- default scheduler types (extracted from the source)
   deriving Repr, Inhabited
+
+/-- one section with a value, as another member's write carries it -/
+inductive Section where
+  | sched (c : Sched) | repl (c : Repl) | pd (c : PdSrv) | labels (c : List LabelProp)
+  | version (v : Nat × Nat × Nat) | rmode (c : RMode)
+  deriving Repr, Inhabited
+
+def Section.apply (c : Cfg) : Section → Cfg
+  | .sched x => { c with sched := x }
+  | .repl x => { c with repl := x }
+  | .pd x => { c with pd := x }
+  | .labels x => { c with labels := x }
+  | .version x => { c with version := x }
+  | .rmode x => { c with rmode := x }
 
 inductive Op where
   | sched (c : Sched) (mask : Nat)
@@ -54,6 +69,11 @@ inductive Op where
   | lpcfg (c : List LabelProp) (mask : Nat)
   | cver (v : Option (Nat × Nat × Nat)) (mask : Nat)     -- none: the string does not parse
   | rmode (c : RMode) (mask : Nat)
+  /- another member was leader meanwhile: it reloaded the stored configuration into its own options object,
+     changed one section and persisted (its writes do not fail here) -/
+  | foreign (x : Section)
+  /- this member is re-elected: `reloadConfigFromKV`, i.e. `Reload` on the SAME options object -/
+  | reload
   deriving Repr, Inhabited
 
 structure Out where
@@ -217,6 +237,20 @@ def setRMode (s : St) (c : RMode) (mask : Nat) : Out :=
     { st := { o.st with mmMode := c.mode, mmKey := c.labelKey }, res := .ok,
       writes := o.writes ++ (if needsStatusWrite s c then [⟨.status, false⟩] else []) }
 
+/-- another member's update: reload (normalised), replace the section, persist the whole -/
+def foreignWrite (s : St) (x : Section) : Out :=
+  match s.stored with
+  | none => { st := s, res := .ok }
+  | some c =>
+    let c' := x.apply (normalise s.defaults c)
+    if jsonOK c' then { st := { s with stored := some c' }, res := .ok } else { st := s, res := .json }
+
+/-- `PersistOptions.Reload` on the serving object: every section is replaced by what the storage holds -/
+def reloadSame (s : St) : Out :=
+  match s.stored with
+  | none => { st := s, res := .ok }
+  | some c => { st := { s with served := normalise s.defaults c }, res := .ok }
+
 def step (s : St) : Op → Out
   | .sched c mask => setSched s c mask
   | .repl c mask => setRepl s c mask
@@ -226,6 +260,13 @@ def step (s : St) : Op → Out
   | .lpcfg m mask => setLabels s m mask
   | .cver v mask => setVersion s v mask
   | .rmode c mask => setRMode s c mask
+  | .foreign x => foreignWrite s x
+  | .reload => reloadSame s
+
+def Op.isSetter : Op → Bool
+  | .foreign _ => false
+  | .reload => false
+  | _ => true
 
 def kindOf : Op → Kind
   | .sched _ _ => .sched
@@ -236,6 +277,8 @@ def kindOf : Op → Kind
   | .lpcfg _ _ => .labels
   | .cver _ _ => .version
   | .rmode _ _ => .rmode
+  | .foreign _ => .foreign
+  | .reload => .reload
 
 def run (s : St) (ops : List Op) : St := ops.foldl (fun s o => (step s o).st) s
 
